@@ -33,6 +33,16 @@ let opts_of = function
          o_noalias = bool_of_tok noalias; o_empty = str_of_tok empty }, rest)
   | _ -> failwith "opts"
 
+let asc c = let n = Char.code c in let b i = (n lsr i) land 1 = 1 in
+            Ascii (b 0, b 1, b 2, b 3, b 4, b 5, b 6, b 7)
+let chr_of = function Ascii (a0, a1, a2, a3, a4, a5, a6, a7) ->
+            let v b i = if b then 1 lsl i else 0 in
+            Char.chr (v a0 0 + v a1 1 + v a2 2 + v a3 3 + v a4 4 + v a5 5 + v a6 6 + v a7 7)
+let cs (t : Stdlib.String.t) =
+  let r = ref EmptyString in
+  for i = Stdlib.String.length t - 1 downto 0 do r := String (asc t.[i], !r) done; !r
+let rec sc = function EmptyString -> "" | String (a, r) -> Stdlib.String.make 1 (chr_of a) ^ sc r
+
 let handle line =
   match String.split_on_char '\t' line with
   | "gvn" :: kind :: rest ->
@@ -89,19 +99,12 @@ let handle line =
        | Some (sorted, upd) -> "OK\t" ^ tok_of_str (List.map (fun m -> m.n_path) sorted) ^ "\t" ^ tok_of_str upd)
   | ["fwd"; k; cli; py] ->
       (* option values are opaque tokens; strings are Coq strings (char lists) *)
-      let asc c = let n = Char.code c in let b i = (n lsr i) land 1 = 1 in
-                  Ascii (b 0, b 1, b 2, b 3, b 4, b 5, b 6, b 7) in
-      let chr = function Ascii (a0, a1, a2, a3, a4, a5, a6, a7) ->
-                  let v b i = if b then 1 lsl i else 0 in
-                  Char.chr (v a0 0 + v a1 1 + v a2 2 + v a3 3 + v a4 4 + v a5 5 + v a6 6 + v a7 7) in
-      let cs (t : Stdlib.String.t) =
-        let r = ref EmptyString in
-        for i = Stdlib.String.length t - 1 downto 0 do r := String (asc t.[i], !r) done; !r in
-      let rec sc = function EmptyString -> "" | String (a, r) -> Stdlib.String.make 1 (chr a) ^ sc r in
       let pairs t = if t = "" then [] else List.map (fun p -> match String.split_on_char '=' p with
                       | [a; b] -> (cs a, cs b) | _ -> failwith "pair") (String.split_on_char ';' t) in
       (match forwarded forward_map (fun f -> cs "DEFAULT") (pairs py) (pairs cli) (cs k) with
        | None -> "NOTFORWARDED" | Some v -> sc v)
+  | ["provides"; minor; m; n] ->
+      if provides (nat_of_int (int_of_string minor)) (cs m) (cs n) then "1" else "0"
   | ["c2s"; s] -> tok_of_str (camel_to_snake u0 (str_of_tok s))
   | ["s2uc"; d; s] -> tok_of_str (s2uc u0 (n_of_int (int_of_string d)) (str_of_tok s))
   | _ -> "BADREQ"
